@@ -13,7 +13,11 @@
 (*     distances below L are integers), integer values;                    *)
 (*   - the variant: unbiasedness row, functional drift rows, one external  *)
 (*     drift row, mean, trend, `exact`, measurement errors;                *)
-(*   - the targets.                                                        *)
+(*   - the targets;                                                        *)
+(*   - (used by the histories of KrigeSysHist) a rotation of the main axes *)
+(*     by `quarter` quarter turns and an affine normalizer y = k (x - s),  *)
+(*     `norm` = <<k, s>>, so that field(t) = (mean(t) + sum w z') / k + s  *)
+(*     + trend(t) with z' = k (z - trend - s) - mean.                      *)
 (* `out` is what the documentation / kriging theory prescribes:            *)
 (*                                                                         *)
 (*      | C + diag(err)   F^T |   | w  |     | k(t) |                      *)
@@ -123,10 +127,14 @@ DD(c) == CASE c.model = "Linear"    -> c.len
            [] c.model = "Spherical" -> 2 * c.len^3
            [] c.model = "Cubic"     -> 4 * c.len^7
 
+(* squared distance in isotropic coordinates: the second main axis is stretched by c.stretch
+   (= 1/anis); the main axes are rotated by c.quarter quarter turns (angles = quarter * pi/2) *)
 Dist2(c, p, q) ==
   LET dx == p[1] - q[1]
-      dy == IF Len(p) = 2 THEN c.stretch * (p[2] - q[2]) ELSE 0
-  IN dx * dx + dy * dy
+      dy == IF Len(p) = 2 THEN p[2] - q[2] ELSE 0
+      a  == IF c.quarter % 2 = 0 THEN dx ELSE dy          \* along the main axis
+      b  == IF c.quarter % 2 = 0 THEN dy ELSE dx          \* along the second axis
+  IN a * a + (c.stretch * b) * (c.stretch * b)
 
 CorInt(c, d2) ==
   LET L == c.len IN
@@ -136,6 +144,12 @@ CorInt(c, d2) ==
             [] c.model = "Spherical" -> 2 * L^3 - 3 * d * L^2 + d^3
             [] c.model = "Cubic"     -> 4 * L^7 - 28 * d^2 * L^5 + 35 * d^3 * L^4
                                         - 14 * d^5 * L^2 + 3 * d^7
+
+OnLatticeD2(c, d2) == d2 >= c.len * c.len \/ \E r \in 0..c.len : r * r = d2
+(* every lag that matters (below the range) between data/data and data/targets is an integer *)
+OnLattice(c) ==
+  /\ \A i, j \in 1..Len(c.pos) : OnLatticeD2(c, Dist2(c, c.pos[i], c.pos[j]))
+  /\ \A i \in 1..Len(c.pos) : \A k \in 1..Len(c.tgt) : OnLatticeD2(c, Dist2(c, c.pos[i], c.tgt[k]))
 
 CovInt(c, p, q)    == c.var * CorInt(c, Dist2(c, p, q))
 SillInt(c)         == (c.var + c.nug) * DD(c)
@@ -175,7 +189,10 @@ MM == 12          \* common denominator of the averaged values (group sizes 1..4
 RepIdx(c) == IF Merges(c)
              THEN SelectSeq(Idx(Len(c.pos)), LAMBDA i : \A j \in 1..(i - 1) : c.pos[j] # c.pos[i])
              ELSE Idx(Len(c.pos))
-Prime(c) == [i \in 1..Len(c.pos) |-> c.val[i] - Lin(c.trend, c.pos[i]) - Lin(c.mean, c.pos[i])]
+(* prepared data: detrended, normalised (affine normalizer y = k * (x - s), c.norm = <<k, s>>;
+   <<1, 0>> is the identity), mean-free *)
+Prime(c) == [i \in 1..Len(c.pos) |->
+               c.norm[1] * (c.val[i] - Lin(c.trend, c.pos[i]) - c.norm[2]) - Lin(c.mean, c.pos[i])]
 
 Sys(c) ==                \* c must be a bound value
   With(RepIdx(c), LAMBDA rep : With(Prime(c), LAMBDA zp : With(ErrOf(c), LAMBDA e : With(Merges(c), LAMBDA mg :
@@ -225,7 +242,9 @@ Rejected(c) ==
 (* every intermediate result is bound once (With); x(t) * det by Cramer's rule = cofactors * rhs *)
 Solve5(c, s, K, cof, det) ==
   LET P == s.P  N == Len(s.P)  sz == Len(K)  T == Len(c.tgt)  den == s.M * det
-      shift(t) == Lin(c.mean, t) + Lin(c.trend, t)
+      nk == c.norm[1]
+      \* post-processing: (mean(t) + estimate) / k + s + trend(t)   as a rational over nk * den
+      post(t, estnum) == Norm(<<Lin(c.mean, t) * den + estnum + nk * (c.norm[2] + Lin(c.trend, t)) * den, nk * den>>)
   IN
   With([k \in 1..T |-> Rhs(c, P, c.tgt[k], FALSE)], LAMBDA R :
   With([k \in 1..T |-> Rhs(c, P, c.tgt[k], TRUE)],  LAMBDA RM :
@@ -233,14 +252,15 @@ Solve5(c, s, K, cof, det) ==
   With([k \in 1..T |-> MatVec(cof, RM[k])], LAMBDA XM :
   With([k \in 1..T |-> Norm(<<SillInt(c) * det - Dot(X[k], R[k], sz), DD(c) * det>>)], LAMBDA VR :
     [status |-> "ok", det |-> det, dd |-> DD(c),
-     field     |-> [k \in 1..T |-> Norm(<<shift(c.tgt[k]) * den + Dot(X[k], s.Z, N), den>>)],
+     field     |-> [k \in 1..T |-> post(c.tgt[k], Dot(X[k], s.Z, N))],
      rawvar    |-> VR,
      var       |-> [k \in 1..T |-> IF VR[k][1] < 0 THEN <<0, 1>> ELSE VR[k]],
-     meanfield |-> [k \in 1..T |-> Norm(<<shift(c.tgt[k]) * den + Dot(XM[k], s.Z, N), den>>)],
+     meanfield |-> [k \in 1..T |-> post(c.tgt[k], Dot(XM[k], s.Z, N))],
      gmean     |-> IF c.drift # 0 \/ c.ext # "none" \/ c.mean[2] # 0 THEN None
                    ELSE IF c.unb
-                        THEN Norm(<<c.mean[1] * den + SumTo([i \in 1..N |-> cof[i][N + 1] * s.Z[i]], N), den>>)
-                        ELSE <<c.mean[1], 1>>,
+                        THEN Norm(<<c.mean[1] * den + SumTo([i \in 1..N |-> cof[i][N + 1] * s.Z[i]], N)
+                                    + nk * c.norm[2] * den, nk * den>>)
+                        ELSE <<c.mean[1] + nk * c.norm[2], nk>>,
      kmat      |-> With(ErrOf(c), LAMBDA e : With(c.pos, LAMBDA pp : KMat(c, pp, e))),
      rhs       |-> With(c.pos, LAMBDA pp : [k \in 1..T |-> With(c.tgt[k], LAMBDA t : Rhs(c, pp, t, FALSE))]),
      edc       |-> IF c.ext = "none" THEN <<>> ELSE [i \in 1..Len(c.pos) |-> ExtVal(c.ext, c.pos[i])],
@@ -275,7 +295,7 @@ Valid(c) ==
           /\ SysDet(c) # 0
 
 MkCfg(m, v, ps, z, L, vr, ng, ex, er) ==
-  [model |-> m, dim |-> Dim, stretch |-> Stretch, len |-> L, var |-> vr, nug |-> ng,
+  [model |-> m, dim |-> Dim, stretch |-> Stretch, quarter |-> 0, norm |-> <<1, 0>>, len |-> L, var |-> vr, nug |-> ng,
    cls |-> v.cls, unb |-> v.unb, drift |-> v.drift, ext |-> v.ext, mean |-> v.mean, trend |-> v.trend,
    exact |-> ex,
    err |-> [mode |-> er.mode, e |-> er.e,
@@ -283,14 +303,14 @@ MkCfg(m, v, ps, z, L, vr, ng, ex, er) ==
                     ELSE <<>>],
    pos |-> ps, val |-> z, tgt |-> Targets]
 
-Init ==
+(* the enumerated base configurations *)
+ForSomeBase(P(_)) ==
   \E m \in Models, v \in Variants, ps \in PosSets, L \in Lens, vr \in Vars, ng \in Nugs,
      ex \in Exacts, er \in ErrSpecs :
     \E z \in ValSeqs[Len(ps)] :
-      \E c \in {MkCfg(m, v, ps, z, L, vr, ng, ex, er)} :
-         /\ Valid(c)
-         /\ cfg = c
-         /\ out = SolveV(c)
+      \E c \in {MkCfg(m, v, ps, z, L, vr, ng, ex, er)} : P(c)
+
+Init == ForSomeBase(LAMBDA c : Valid(c) = TRUE /\ cfg = c /\ out = SolveV(c))
 
 Next == UNCHANGED vars
 
@@ -354,7 +374,7 @@ ChunkIndependent ==
           LAMBDA parts : CatField(parts, Len(ch)) = out.field /\ CatVar(parts, Len(ch)) = out.var))
 
 (* the estimate is linear in the (detrended, mean-free) data; the variance does not depend on them *)
-ZeroShift(c) == [c EXCEPT !.mean = <<0, 0>>, !.trend = <<0, 0>>]
+ZeroShift(c) == [c EXCEPT !.mean = <<0, 0>>, !.trend = <<0, 0>>, !.norm = <<1, 0>>]
 LinearInData ==
   Ok => \A a \in {-1, 2} : \A z2 \in ValSeqs[Len(cfg.pos)] :
      With(Solve(ZeroShift(cfg)), LAMBDA o1 :
@@ -383,7 +403,7 @@ ReproducesDrift ==
 MeanIrrelevantWhenUnbiased ==
   Ok /\ cfg.unb => Solve([cfg EXCEPT !.mean = <<0, 0>>]).field = out.field
 TrendActsAsMean ==
-  Ok => With(Solve([cfg EXCEPT !.mean = <<cfg.mean[1] + cfg.trend[1], cfg.mean[2] + cfg.trend[2]>>,
+  Ok /\ cfg.norm = <<1, 0>> => With(Solve([cfg EXCEPT !.mean = <<cfg.mean[1] + cfg.trend[1], cfg.mean[2] + cfg.trend[2]>>,
                                !.trend = <<0, 0>>]),
              LAMBDA o2 : o2.field = out.field /\ o2.var = out.var)
 
